@@ -28,12 +28,19 @@ class FlowResult:
     falls_off_end: bool = False
 
 
+def _fkey(x):
+    if x[0] == "cond":
+        return (id(x[1]), x[2])
+    if x[0] == "assigned":
+        return x
+    return id(x)
+
+
 def _common(a, b):
-    ids = {id(x) if x[0] != "cond" else (id(x[1]), x[2]) for x in b}
+    ids = {_fkey(x) for x in b}
     out = []
     for x in a:
-        k = id(x) if x[0] != "cond" else (id(x[1]), x[2])
-        if k in ids:
+        if _fkey(x) in ids:
             out.append(x)
     return out
 
@@ -141,7 +148,14 @@ class _Walker:
             return facts + [("cond", st.test, True)]
         if isinstance(st, (ast.FunctionDef, ast.AsyncFunctionDef, ast.ClassDef)):
             return facts
-        return facts + [("stmt", st)]
+        extra = []
+        if isinstance(st, (ast.Assign, ast.AugAssign, ast.AnnAssign)):
+            tgs = st.targets if isinstance(st, ast.Assign) else [st.target]
+            for t in tgs:
+                for x in ast.walk(t):
+                    if isinstance(x, ast.Name) and isinstance(x.ctx, ast.Store):
+                        extra.append(("assigned", x.id))
+        return facts + [("stmt", st)] + extra
 
 
 _cache: dict[int, FlowResult] = {}
